@@ -114,3 +114,31 @@ def replay_twofaults(k1, k2, kind1, kind2, enc, blocked):
     if errors != [k1, k2]:
         return True, 'bad records %s reported as %s' % ([k1, k2], errors), 'C10/two-faults'
     return False, 'ok', None
+
+
+def replay_twostep(pre, k, fault, enc, blocked):
+    from cardutil import mciipm, iso8583
+    f = io.BytesIO()
+    w = mciipm.VbsWriter(f, blocked=blocked)
+    for i in range(1, k + 1):
+        if i == k and fault == 'oversize':
+            w.out_file.write(struct.pack('>I', 70000))
+        elif i == k and fault != 'truncated':
+            w.write(_bad(fault, enc))
+        else:
+            w.write(iso8583.dumps({'MTI': '1240', 'DE2': 'P' * 12}, encoding=enc))
+    w.close()
+    data = f.getvalue()
+    if fault == 'truncated':
+        data = data[:k * (4 + 20 + 2 + 12) - 3]
+    rd = mciipm.IpmReader(io.BytesIO(data), encoding=enc, blocked=blocked)
+    for _ in range(pre):
+        next(rd)
+    try:
+        for d in rd:
+            pass
+        return True, 'no error raised', 'C10/two-step'
+    except mciipm.MciIpmDataError as e:
+        if e.record_number != k:
+            return True, 'bad record %d reported as %r after %d next() calls' % (k, e.record_number, pre), 'C10/two-step'
+    return False, 'ok', None
